@@ -45,14 +45,31 @@ var refKinds = []refKind{
 	{"same-method-name-as-function", "type SK struct {\n\tA uint64\n}\n\nfunc (s *SK) resetK() {\n\ts.A = 0\n}\n\nfunc resetK() uint64 {\n\treturn 9\n}", "func UK(s *SK) uint64 {\n\ts.resetK()\n\treturn resetK()\n}"},
 }
 
+// scaleDecls is just above 2^16: the number of filler declarations of the scale layouts.
+const scaleDecls = 65600
+
+func scaleFiller(prefix string, n int) string {
+	var b strings.Builder
+	for i := 0; i < n; i++ {
+		fmt.Fprintf(&b, "const %sill%d uint64 = %d\n", prefix, i, i)
+	}
+	return b.String()
+}
+
 // DepOrder generates the C04 corpus: every reference kind under four layouts.
 func DepOrder(level int) []*tv.Package {
-	layouts := []string{"user-first", "provider-first", "two-files-user-in-a", "two-files-user-in-z"}
+	layouts := []string{"user-first", "provider-first", "two-files-user-in-a", "two-files-user-in-z",
+		// the same references across more declarations than fit in 16 bits: any bookkeeping of the
+		// ordering kernel that is narrower than int shows up here and nowhere else
+		"scale-user-first", "scale-two-files"}
 	var out []*tv.Package
 	for li, layout := range layouts {
 		p := &tv.Package{Name: fmt.Sprintf("dep%d", li), Files: map[string]string{}}
 		var users, provs []string
 		for ki, k := range refKinds {
+			if strings.HasPrefix(layout, "scale-") && k.name == "function-named-like-a-method" {
+				continue // a pinned known finding under the four small layouts; nothing new at scale
+			}
 			suffix := fmt.Sprintf("%d", ki)
 			u := strings.ReplaceAll(k.user, "K", suffix)
 			pr := strings.ReplaceAll(k.provider, "K", suffix)
@@ -72,6 +89,11 @@ func DepOrder(level int) []*tv.Package {
 		case "two-files-user-in-z":
 			p.Files["z_api.go"] = hdr + strings.Join(users, "\n\n") + "\n"
 			p.Files["a_impl.go"] = hdr + strings.Join(provs, "\n\n") + "\n"
+		case "scale-user-first":
+			p.Files["gen.go"] = hdr + strings.Join(users, "\n\n") + "\n\n" + scaleFiller("F", scaleDecls) + "\n" + strings.Join(provs, "\n\n") + "\n"
+		case "scale-two-files":
+			p.Files["a_api.go"] = hdr + scaleFiller("F", scaleDecls) + "\n" + strings.Join(users, "\n\n") + "\n"
+			p.Files["z_impl.go"] = hdr + scaleFiller("G", scaleDecls) + "\n" + strings.Join(provs, "\n\n") + "\n"
 		}
 		out = append(out, p)
 	}
